@@ -86,7 +86,7 @@ func (g *goGen) build(name string, t types.Type, depth int) string {
 				fn := name + "." + f.Name()
 				has := false
 				for k := range g.model {
-					if k == fn || strings.HasPrefix(k, fn+".") {
+					if k == fn || strings.HasPrefix(k, fn+".") || strings.HasPrefix(k, fn+"[") {
 						has = true
 					}
 				}
@@ -98,7 +98,7 @@ func (g *goGen) build(name string, t types.Type, depth int) string {
 					continue
 				}
 				switch kindOf(f.Type()) {
-				case KInt, KBool, KPtr:
+				case KInt, KBool, KPtr, KArr, KStruct, KSlice:
 					fs = append(fs, fmt.Sprintf("%s: %s", f.Name(), g.build(fn, f.Type(), depth+1)))
 				}
 			}
@@ -108,10 +108,39 @@ func (g *goGen) build(name string, t types.Type, depth int) string {
 		return fmt.Sprintf("new(%s)", g.typeStr(pt.Elem()))
 	case KSlice:
 		if v, ok := g.modelInt(name + ".len"); ok && v.IsInt64() && v.Int64() >= 0 && v.Int64() <= 1<<20 {
+			et := under(t).(*types.Slice).Elem()
+			if kindOf(et) == KInt {
+				var els []string
+				for i := int64(0); i < v.Int64() && i < 16; i++ {
+					if ev, ok := g.modelInt(fmt.Sprintf("%s[%d]", name, i)); ok {
+						els = append(els, fmt.Sprintf("%d: %s(%s)", i, g.typeStr(et), ev.String()))
+					}
+				}
+				if v.Int64() > 0 {
+					els = append(els, fmt.Sprintf("%d: %s(0)", v.Int64()-1, g.typeStr(et)))
+					if len(els) > 1 && strings.HasPrefix(els[len(els)-2], fmt.Sprintf("%d:", v.Int64()-1)) {
+						els = els[:len(els)-1]
+					}
+				}
+				return fmt.Sprintf("%s{%s}", g.typeStr(t), strings.Join(els, ", "))
+			}
 			return fmt.Sprintf("make(%s, %d)", g.typeStr(t), v.Int64())
 		}
 		g.partial = append(g.partial, name)
 		return "nil"
+	case KArr:
+		a := under(t).(*types.Array)
+		if kindOf(a.Elem()) == KInt {
+			var els []string
+			for i := int64(0); i < a.Len(); i++ {
+				if ev, ok := g.modelInt(fmt.Sprintf("%s[%d]", name, i)); ok && ev.Sign() != 0 {
+					els = append(els, fmt.Sprintf("%d: %s(%s)", i, g.typeStr(a.Elem()), ev.String()))
+				}
+			}
+			return fmt.Sprintf("%s{%s}", g.typeStr(t), strings.Join(els, ", "))
+		}
+		g.partial = append(g.partial, name)
+		return fmt.Sprintf("%s{}", g.typeStr(t))
 	case KStruct:
 		stt := under(t).(*types.Struct)
 		var fs []string
@@ -121,8 +150,14 @@ func (g *goGen) build(name string, t types.Type, depth int) string {
 				continue
 			}
 			switch kindOf(f.Type()) {
-			case KInt, KBool:
-				if _, ok := g.model[name+"."+f.Name()]; ok {
+			case KInt, KBool, KArr, KStruct, KPtr:
+				has := false
+				for k := range g.model {
+					if k == name+"."+f.Name() || strings.HasPrefix(k, name+"."+f.Name()+".") || strings.HasPrefix(k, name+"."+f.Name()+"[") {
+						has = true
+					}
+				}
+				if has {
 					fs = append(fs, fmt.Sprintf("%s: %s", f.Name(), g.build(name+"."+f.Name(), f.Type(), depth+1)))
 				}
 			}
@@ -243,6 +278,23 @@ func (g *goGen) expr(e *SExpr) goExpr {
 			}
 		}
 		gfail("no field %s", e.Name)
+	case "idx":
+		base := g.expr(e.Args[0])
+		idx := g.expr(e.Args[1])
+		if base.t == nil {
+			gfail("index on untyped %s", e)
+		}
+		raw := base.code
+		var et types.Type
+		switch u := under(base.t).(type) {
+		case *types.Array:
+			et = u.Elem()
+		case *types.Slice:
+			et = u.Elem()
+		default:
+			gfail("index on %v", base.t)
+		}
+		return g.wrapGo(fmt.Sprintf("%s[int(%s.Int64())]", raw, idx.code), et)
 	case "call":
 		if e.Args[0].Kind == "id" {
 			args := e.Args[1:]
@@ -258,6 +310,16 @@ func (g *goGen) expr(e *SExpr) goExpr {
 					fn = "gvBE"
 				}
 				return goExpr{fmt.Sprintf("%s(%s, 8)", fn, code), "int", nil}
+			case "bytescmp":
+				a, b := g.expr(args[0]), g.expr(args[1])
+				g.imports["bytes"] = "bytes"
+				sl := func(x goExpr) string {
+					if _, isArr := under(x.t).(*types.Array); isArr {
+						return "func() []byte { x := " + x.code + "; return x[:] }()"
+					}
+					return x.code
+				}
+				return goExpr{fmt.Sprintf("gvI(bytes.Compare(%s, %s))", sl(a), sl(b)), "int", nil}
 			case "pow2":
 				a := g.expr(args[0])
 				return goExpr{"gvPow2(" + a.code + ")", "int", nil}
@@ -452,7 +514,19 @@ func (c *Ctx) genReplayTest(ob *Obligation) (src string, pkgDir string, err erro
 		fmt.Fprintf(&body, "\tholds := %s\n", clause.code)
 		body.WriteString("\tif !holds {\n\t\tfmt.Println(\"GVC-REPLAY: violated\")\n\t\tt.Fatalf(\"clause violated on the real code\")\n\t}\n\tfmt.Println(\"GVC-REPLAY: holds\")\n}\n")
 	} else if ob.Kind == "safe" {
-		body.WriteString("\tdefer func() {\n\t\tif r := recover(); r != nil {\n\t\t\tfmt.Println(\"GVC-REPLAY: violated\", r)\n\t\t\tt.Fatalf(\"panic on the real code: %v\", r)\n\t\t}\n\t\tfmt.Println(\"GVC-REPLAY: holds\")\n\t}()\n")
+		want := ""
+		switch {
+		case strings.Contains(ob.Name, "#safe/bounds"), strings.Contains(ob.Name, "#safe/slice"):
+			want = "out of range"
+		case strings.Contains(ob.Name, "#safe/nil"):
+			want = "nil pointer"
+		case strings.Contains(ob.Name, "#safe/div0"):
+			want = "divi"
+		case strings.Contains(ob.Name, "#safe/typeassert"):
+			want = "interface conversion"
+		}
+		g.imports["strings"] = "strings"
+		fmt.Fprintf(&body, "\tdefer func() {\n\t\tif r := recover(); r != nil {\n\t\t\tif strings.Contains(fmt.Sprint(r), %q) {\n\t\t\t\tfmt.Println(\"GVC-REPLAY: violated\", r)\n\t\t\t} else {\n\t\t\t\tfmt.Println(\"GVC-REPLAY: different panic\", r)\n\t\t\t}\n\t\t\tt.Fatalf(\"panic on the real code: %%v\", r)\n\t\t}\n\t\tfmt.Println(\"GVC-REPLAY: holds\")\n\t}()\n", want)
 		fmt.Fprintf(&body, "\t%s\n}\n", call)
 	} else {
 		return "", "", fmt.Errorf("obligation kind %s has no replay template", ob.Kind)
